@@ -11,7 +11,7 @@ echo "== demo WITH patch"; bash $OUT/demo/run.sh $WT > $OUT/confirm_with.log 2>&
 git apply -R $P
 echo "== demo WITHOUT patch"; bash $OUT/demo/run.sh $WT > $OUT/confirm_without.log 2>&1; echo "exit=$?"
 git apply $P
-echo "== baseline WITH patch"; /tmp/wt/check_baseline.sh $WT 2>&1 | tail -4
+echo "== baseline WITH patch"; /verif/tools/check_baseline.sh $WT 2>&1 | tail -4
 pkill -9 -f "$WT/target/debug/b[s] --dap" 2>/dev/null
 } > $OUT/confirm.txt 2>&1
 cat $OUT/confirm.txt
